@@ -137,6 +137,18 @@ def check_case(acc, pendulum, zname, inst, kw, variants=True):
                           "instant_delta_us": A})
         if first is None:
             first = r
+    if variants:
+        # the same model state reached by another route: constructed, with the other raw fold flag
+        # (inert on an unambiguous wall time) - the result must not depend on it
+        y = pendulum.DateTime.create(*x_f, tz=tzobj, fold=1 - x.fold)
+        if (obs.fields(y), obs.offset_s(y)) == (x_f, x_o):
+            r = y.add(**kw)
+            acc.c["evaluations"] += 1
+            acc.c["transitions"] += 1
+            got = (obs.fields(r), obs.offset_s(r))
+            if got != (exp_f, exp_o):
+                acc.mismatch("add", "constructed-receiver", dict(case, receiver_fold=1 - x.fold),
+                             {"fields": got[0], "offset": got[1]}, {"fields": exp_f, "offset": exp_o})
     b = first.subtract(**kw)
     acc.c["evaluations"] += 1
     acc.c["transitions"] += 1
